@@ -66,6 +66,18 @@ def run(model: Model, rep: Report) -> None:
                 r13.violation(site(f_, n), f_.qualname, unparse(n), "the bytes as stored in the file are used: whatever filters precede the image codec (and the document's encryption) are not undone, and the exported file is not the image")
             elif isinstance(n, ast.Call) and isinstance(n.func, ast.Attribute) and n.func.attr == "get_data" and unparse(n.func.value).endswith("stream"):
                 r13.ok(site(f_, n), f_.qualname, unparse(n))
+    r14 = rep.rule("C18-R14", "DEPEND", "DCT / JPX data are written byte for byte: what _save_jpeg and _save_jpeg2000 hand to the file is the decoder's output itself - a name bound once, to stream.get_data(), not cut or patched afterwards", 1)
+    for fn_ in ("_save_jpeg",):
+        sf = model.func(I + "ImageWriter." + fn_)
+        wr = [c for c in walk_no_nested(sf.node) if isinstance(c, ast.Call) and isinstance(c.func, ast.Attribute) and c.func.attr == "write" and c.args]
+        names14 = {a.id for c in wr for a in c.args if isinstance(a, ast.Name)}
+        for nm in sorted(names14):
+            defs = [a for a in walk_no_nested(sf.node) if isinstance(a, (ast.Assign, ast.AugAssign)) and any(isinstance(t, ast.Name) and t.id == nm for t in (a.targets if isinstance(a, ast.Assign) else [a.target]))]
+            ok14 = len(defs) == 1 and isinstance(defs[0], ast.Assign) and "".join(unparse(defs[0].value).split()) == "image.stream.get_data()"
+            r14.check(ok14, site(sf, defs[-1]) if defs else site(sf), sf.qualname, f"`{nm}` written by {fn_} is image.stream.get_data(), bound once", why=f"{[unparse(d)[:60] for d in defs]}: the bytes are cut or altered on their way to the file (e.g. truncated at the first FF D9, which an embedded EXIF thumbnail contains)")
+    from .c03 import _lzw
+
+    _lzw(model, rep, "C18-R15")
     # ---------------------------------------------------------------- R2
     r2 = rep.rule("C18-R2", "UNITS", "BMP writer: 4-byte aligned row size, header fields, bottom-up rows; _save_bmp feeds consecutive rows", 5)
     bw = model.func(I + "BMPWriter.__init__")
